@@ -23,6 +23,8 @@ def run(rep):
     rep.guard(n6, rep, w)
     import c09
     rep.guard(c09.f5, rep, w)     # a fiber killed by a failed run is reported as finished by later snippets
+    import c05
+    rep.guard(c05.e7, rep, w)     # a failed assignment to an undeclared global defines nothing for later snippets
 
 
 def vm_field_writes(w, f):
